@@ -177,4 +177,42 @@ theorem Own.lookup_after_remove (o : Own) (idOf : Nat → Nat) (ha : o.Agree idO
   · exact h
   · exact absurd rfl ((hmem _).mp (Own.lookup_some h)).2
 
+/-! ### the handler's close callbacks -/
+
+theorem Hnd.lookup_register (h : Hnd) (id cb : Nat) : (h.register id cb).lookup id = some cb := by
+  simp [Hnd.register, Hnd.lookup]
+
+theorem Hnd.find_filter_other (l : List (Nat × Nat)) (id id' : Nat) (hne : id' ≠ id) :
+    (l.filter (fun q => q.1 != id)).find? (fun p => p.1 == id') = l.find? (fun p => p.1 == id') := by
+  induction l with
+  | nil => rfl
+  | cons p l ih =>
+    rw [List.filter_cons]
+    by_cases hp : p.1 = id
+    · have h2 : (p.1 == id') = false := by
+        rw [hp]; exact beq_false_of_ne (fun e => hne e.symm)
+      have h3 : (id == id') = false := by rw [← hp]; exact h2
+      simp only [hp, bne_self_eq_false, Bool.false_eq_true, if_false, List.find?_cons, h3, ih]
+    · have h1 : (p.1 != id) = true := bne_iff_ne.mpr hp
+      simp only [h1, if_true, List.find?_cons, ih]
+
+theorem Hnd.lookup_register_other (h : Hnd) (id id' cb : Nat) (hne : id' ≠ id) : (h.register id cb).lookup id' = h.lookup id' := by
+  simp only [Hnd.register, Hnd.lookup]
+  have h1 : (id == id') = false := beq_false_of_ne (fun e => hne e.symm)
+  rw [List.find?_cons, h1, Hnd.find_filter_other _ _ _ hne]
+
+theorem Hnd.lookup_filter_self (l : List (Nat × Nat)) (id : Nat) :
+    (l.filter (fun q => q.1 != id)).find? (fun p => p.1 == id) = none := by
+  rw [List.find?_eq_none]
+  intro p hp
+  rw [List.mem_filter] at hp
+  simpa using hp.2
+
+/-- after the callback ran (without panicking) nothing is registered under the id any more -/
+theorem Hnd.onRemove_clears (h : Hnd) (id : Nat) : ((h.onRemove id false).1).lookup id = none := by
+  unfold Hnd.onRemove
+  cases hl : h.lookup id with
+  | none => simp [hl]
+  | some cb => simp only [Bool.false_eq_true, if_false, Hnd.lookup, Hnd.lookup_filter_self, Option.map_none]
+
 end Cell2v.Session
